@@ -2,6 +2,7 @@ package verifsim
 
 import (
 	"fmt"
+	"sort"
 )
 
 // ---- C13: timeouts ----
@@ -336,6 +337,33 @@ func runFaultJob(c *Ctl, job *Job, idx int, res *RunResult) {
 				StageGen: SchedGenParams{MaxStages: 5, NestProb: 0, AllowProb: 30, CondProb: 0, MaxDepth: 0, NoTrueCondWithDeps: true}}
 			w = GenTaskWorld(c.Ch, gen)
 		}
+		// every command first prints something (half of the time without finishing the line) and
+		// keeps running: what one task leaves on the terminal must not hold the others back
+		{
+			var ids []string
+			for _, t := range w.Tasks {
+				for _, p := range taskPositions(t) {
+					ids = append(ids, execID(t.Name, p.block, p.idx, p.v))
+				}
+			}
+			sort.Strings(ids)
+			for _, id := range ids {
+				pl := w.Plans[id]
+				if pl == nil {
+					pl = &ExecPlan{}
+					w.Plans[id] = pl
+				}
+				if len(pl.Chunks) == 0 && c.Ch.Bool(1, 2, "progress-output") {
+					txt := "working on " + id
+					if c.Ch.Bool(1, 2, "finish-line") {
+						txt += "\n"
+					} else {
+						txt += "... "
+					}
+					pl.Chunks = []Chunk{{Stream: 1, Data: []byte(txt)}}
+				}
+			}
+		}
 		prof.Barrier = true
 		prof.UseRunEnter = true
 		prof.UseStageStart = true
@@ -424,6 +452,12 @@ func GenContextWorld(ch *Choices, thorough bool) *IntegWorld {
 				pl.Exit = genExit(ch)
 			}
 			w.Plans[execID("ctx:"+cs.Name, "up", k, "")] = pl
+		}
+		for k := 0; k < cs.NDown; k++ {
+			if ch.Bool(1, 5, "down-fails") {
+				// a failing clean-up command must not keep the other contexts from being taken down
+				w.Plans[execID("ctx:"+cs.Name, "down", k, "")] = &ExecPlan{Exit: genExit(ch)}
+			}
 		}
 	}
 	max := 5
